@@ -41,6 +41,10 @@ FailedCommittee(e, c) ==
         THEN {"FaSeatsBoundary"} ELSE {})
   \cup (IF e.strategy \in FaitAccompli /\ e.small /\ ~FaSeatsInterior(c, e.stakes, e.k)
         THEN {"FaSeatsInterior"} ELSE {})
+  \cup (IF e.strategy \in FaitAccompli1 /\ e.small /\ ~FaExactWhenNoResidual(c, e.stakes, e.k)
+        THEN {"FaExactWhenNoResidual"} ELSE {})
+  \cup (IF e.strategy \in PartitionFallback /\ e.small /\ InRange(c, e.n) /\ ~FaPartitionCap(c, e.stakes, e.k)
+        THEN {"FaPartitionCap"} ELSE {})
   \cup (IF e.strategy \in Decaying /\ ~DecayCap(c, e.num, e.den) THEN {"DecayCap"} ELSE {})
 
 FailedDraw(e, d) ==
